@@ -1246,6 +1246,12 @@ class NumbaBackend(NumpyBackend):
                 arrays = ", ".join(f"{self._print(expr)}" for expr in arr)
                 return f"[{arrays}]"
 
+            def _print_Mod(self, expr):
+                # always use parentheses, since sympy omits them in negative products
+                # and for arguments that are printed as divisions
+                a, b = (self._print(arg) for arg in expr.args)
+                return f"(({a}) % ({b}))"
+
         printer = ListArrayPrinter(
             {
                 "fully_qualified_modules": False,
